@@ -519,6 +519,33 @@ make(%(k)d, made["main thread"])
 t = threading.Thread(target=make, args=(%(k)d, made["worker thread"])); t.start(); t.join()
 with ThreadPoolExecutor(1) as pool:  # one pool thread: the callers never overlap (a race between callers is out of reach)
     list(pool.map(lambda _: make(%(k)d // 4, made["thread pool"]), range(4)))
+# frame clause: the public functions that take a quantity read it; none of them may write the constant they are handed
+from symplyphysics.core import convert as CV
+from symplyphysics.core.dimensions import dimension_to_si_unit
+from symplyphysics.core.symbols.quantities import scale_factor
+from symplyphysics.docs.printer_code import code_str
+from symplyphysics.docs.printer_latex import latex_str
+readers = {
+    "evaluate_quantity(q, n=4)": lambda q: CV.evaluate_quantity(q, n=4),
+    "evaluate_quantity(q)": lambda q: CV.evaluate_quantity(q),
+    "evaluate_expression(q*2, True, n=3)": lambda q: CV.evaluate_expression(q * 2, True, n=3),
+    "convert_to_si(q)": lambda q: CV.convert_to_si(q),
+    "convert_to(q, SI unit)": lambda q: CV.convert_to(q, dimension_to_si_unit(q.dimension)),
+    "scale_factor(q)": lambda q: scale_factor(q),
+    "Quantity(q), Quantity(2*q)": lambda q: (Quantity(q), Quantity(2 * q)),
+    "abs(q), -q, q**2, q.n(3), q.evalf(5)": lambda q: (abs(q), -q, q**2, q.n(3), q.evalf(5)),
+    "str(q), code_str(q), latex_str(q)": lambda q: (str(q), code_str(q), latex_str(q)),
+}
+reader_calls = 0
+for n in Q.__all__:
+    for label, f in readers.items():
+        try:
+            f(getattr(Q, n))
+        except Exception:  # a refusal is not a write
+            pass
+        reader_calls += 1
+for _ in range(%(extra)d):  # thorough tier: a long-lived process
+    Quantity(3 * units.second)
 after = snapshot()
 bad = [f"{n}: (name, scale factor, dimension) {before[n]} -> {after[n]}" for n in before if before[n] != after[n]]
 taken = {v[0] for v in before.values()}
@@ -534,7 +561,8 @@ def _history_stage(report, names):
     constant silently replaces that constant's value.  Contract of the name source (id_generator.next_id through
     symbols.next_name): every generated name is fresh for the whole process, whichever thread asks."""
     K = 40
-    script = HISTORY_SCRIPT % {"k": K}
+    extra = 120000 if report.tier == "thorough" else 0
+    script = HISTORY_SCRIPT % {"k": K, "extra": extra}
     env: dict = {}
     try:
         exec(compile(script, "<C20 history stage>", "exec"), env)  # pylint: disable=exec-used
@@ -543,7 +571,8 @@ def _history_stage(report, names):
         return
     fails = []
     if env["bad"] or env["clash"] or env["dup"]:
-        detail = (f"after {K} quantities created in the main thread, {K} in a worker thread and {K} in a thread pool: "
+        detail = (f"after {K} quantities created in the main thread, {K} in a worker thread and {K} in a pool thread, "
+                  f"{env['reader_calls']} calls of reading functions on the constants and {extra} further quantities: "
                   f"{len(env['bad'])} exported constant(s) changed ({'; '.join(env['bad'][:3])}); generated names equal to a "
                   f"constant's name: {env['clash'][:5]}; names generated twice: {env['dup'][:5]}")
         fails.append({"name": "C20/history/fresh-names", "signature": "history", "detail": detail,
@@ -554,9 +583,11 @@ def _history_stage(report, names):
     report.add_bounded(
         "history clause: every exported constant keeps its name, scale factor and dimension, and no generated quantity name is "
         "issued twice or equals a constant's name, after further quantities are created in the main thread, a worker thread and "
-        "a pool thread, one caller at a time (the SI tables are keyed by the generated name; overlapping callers are a "
-        "concurrency question outside this family's reach)",
-        f"{K} quantities per stage, 3 stages, one process", len(names), not fails, fails)
+        "a pool thread, one caller at a time, and after the public reading functions were applied to every constant (the SI tables are "
+        "keyed by the generated name; overlapping callers are a concurrency question outside this family's reach)",
+        f"{K} quantities per stage, 3 stages; 9 reading calls (evaluate_quantity, convert_to_si, convert_to, scale_factor, "
+        f"Quantity(q), arithmetic, printers) on each constant; {extra} further quantities (thorough tier: 120000); one process",
+        len(names), not fails, fails)
     report.function("symplyphysics.core.symbols.id_generator.next_id", PKG / "core" / "symbols" / "id_generator.py",
                     "bounded history clause only")
 
